@@ -37,8 +37,11 @@ def expected_text(line, n_parents, ocfg, in_conflict=False):
     if n_parents > 1 and not in_conflict:
         # combined diff outside a conflict: delta documents that it always shows the prefix
         return [tab(prefix + body), tab(body)]
+    if n_parents > 1:
+        # inside a conflict region the marker setting is honoured ('-' ancestor, '+' side)
+        return [tab(body), tab("-" + body), tab("+" + body)] if ocfg.get("markers") else [tab(body)]
     if ocfg.get("markers"):
-        return [tab(prefix[:1] + body)] if n_parents == 1 else [tab(prefix[:1] + body), tab(body)]
+        return [tab(prefix[:1] + body)]
     return [tab(body)]
 
 
@@ -193,6 +196,15 @@ class SearchA(Problem):
             self.hh = [b"@@@ -1,9 -1,9 +1,9 @@@", b"@@@ -21,2 -21,2 +21,3 @@@ fn frag()"]
             self.alphabet = [(p + c, producers.hunk_line_kind(p + c, 2))
                              for c in contents for p in (b"  ", b"- ", b" -", b"--", b"+ ", b" +", b"++")]
+        elif variant == "conflict":
+            self.np = 2
+            self.header = [b"diff --cc f.txt", b"index 1111111,2222222..0000000",
+                           b"--- a/f.txt", b"+++ b/f.txt"]
+            self.hh = [b"@@@ -1,9 -1,9 +1,19 @@@"]
+            self.alphabet = [(b"  a", "zero"), (b"++c", "plus"), (b"- b", "minus")]
+            self.side = {"ours": [b" +" + c for c in contents],
+                         "anc": [b"++" + c for c in contents],
+                         "theirs": [b"+ " + c for c in contents]}
         else:
             raise ValueError(variant)
 
@@ -206,13 +218,36 @@ class SearchA(Problem):
             if a < len(self.header):
                 return [(self.header[a], ("hdr", a + 1, 0, 0), "header")]
             return self._hunk_headers(0)
+        if self.variant == "conflict" and stage != "hunk":
+            return self._conflict_successors(ps)
         # stage == "hunk": a = hunk index, b = lines used
         out = []
+        if self.variant == "conflict" and b < self.L:
+            out.append((b"++<<<<<<< HEAD", ("ours", (), (), ()), "mc-begin"))
         if b < self.L:
             for line, kind in self.alphabet:
                 out.append((line, ("hunk", a, b + 1, 0), "hunk-" + kind))
         if b >= 1 and a + 1 < self.hunks:
             out.extend(self._hunk_headers(a + 1))
+        return out
+
+    def _conflict_successors(self, ps):
+        # ps = (side, ours lines, ancestor lines, theirs lines); at most 2 lines per side
+        side, o, a, t = ps
+        out = []
+        cur = {"ours": o, "anc": a, "theirs": t}[side]
+        if len(cur) < 2:
+            for l in self.side[side]:
+                nxt = {"ours": (side, o + (l,), a, t), "anc": (side, o, a + (l,), t),
+                       "theirs": (side, o, a, t + (l,))}[side]
+                out.append((l, nxt, "mc-line"))
+        if side == "ours":
+            out.append((b"++||||||| base", ("anc", o, a, t), "mc-anc"))
+            out.append((b"++=======", ("theirs", o, a, t), "mc-sep"))
+        elif side == "anc":
+            out.append((b"++=======", ("theirs", o, a, t), "mc-sep"))
+        else:
+            out.append((b"++>>>>>>> br", ("hunk", 0, self.L, ("end", o, a, t)), "mc-end"))
         return out
 
     def _hunk_headers(self, idx):
@@ -224,6 +259,19 @@ class SearchA(Problem):
 
     def step(self, model, line, kind, out, ps):
         q = model
+        if kind == "mc-end":
+            # a conflict region is shown as two comparisons against the common ancestor
+            _, o, a, t = ps[3]
+            n = 0
+            for minus, plus in ((a, o), (a, t)):
+                for l in minus:
+                    q = self.oracle.push(q, ("minus", tuple(expected_text(l, 2, self.ocfg, True)),
+                                             len(l), 0))
+                for l in plus:
+                    q = self.oracle.push(q, ("plus", tuple(expected_text(l, 2, self.ocfg, True)),
+                                             len(l), 0))
+                n += len(minus) + len(plus)
+            return self.oracle.consume_rows(q, out, 0, own=n)
         if kind.startswith("hunk-") and kind != "hunk-header":
             k = kind[5:]
             if k == "raw":
@@ -392,7 +440,7 @@ def run_task(task):
         v.args = args
         v.config_label = label
     d = stats.merge_dict()
-    d.update(label=label, spec=spec[:2], violations=viols)
+    d.update(label=label, spec=spec[:2], violations=viols, args=args, caller=None)
     return d
 
 
@@ -406,6 +454,7 @@ def plan(tier):
         deep = [("A", "unified", CONTENTS_FULL, 3, 1), ("A", "unified", CONTENTS_QUICK, 2, 2),
                 ("A", "combined", CONTENTS_QUICK[:3], 3, 1),
                 ("A", "diffu", CONTENTS_QUICK + [b"-- y"], 3, 1),
+                ("A", "conflict", [b"x", b""], 1, 1),
                 ("B", 2, ["modified", "mode", "rename_change"], None, "diffu")]
     else:
         specs = [("A", "unified", CONTENTS_QUICK, 4, 1),
@@ -413,6 +462,7 @@ def plan(tier):
         deep = [("A", "unified", CONTENTS_FULL, 4, 1), ("A", "unified", CONTENTS_QUICK, 3, 2),
                 ("A", "combined", CONTENTS_QUICK, 3, 1),
                 ("A", "diffu", CONTENTS_FULL, 3, 1),
+                ("A", "conflict", [b"x", b"", b"\tt", b"\xc3\xa9\xe6\xbc\xa2"], 2, 1),
                 ("B", 3, None, ["ctx", "minus", "minusplus"], "git"),
                 ("B", 2, ["modified"], None, "diffu")]
     for label, ov, k in configs:
